@@ -21,7 +21,7 @@ theorem Ext.trans {a b c : XS} (h1 : Ext a b) (h2 : Ext b c) : Ext a c := by
   exact ⟨⟨i1 ++ i2, by rw [hi2, hi1, List.append_assoc]⟩, ⟨e1 ++ e2, by rw [he2, he1, List.append_assoc]⟩,
     ⟨o2 ++ o1, by rw [ho2, ho1, List.append_assoc]⟩⟩
 
-theorem ext_emit (x : XS) (o : String) : Ext x (x.emit o) := ⟨⟨[], by simp [XS.emit]⟩, ⟨[], by simp [XS.emit]⟩, ⟨[o], by simp [XS.emit]⟩⟩
+theorem ext_emit (x : XS) (o : Tok) : Ext x (x.emit o) := ⟨⟨[], by simp [XS.emit]⟩, ⟨[], by simp [XS.emit]⟩, ⟨[o], by simp [XS.emit]⟩⟩
 theorem ext_raise (x : XS) (e : String) : Ext x (x.raise e) := ⟨⟨[e], by simp [XS.raise]⟩, ⟨[], by simp [XS.raise]⟩, ⟨[], by simp [XS.raise]⟩⟩
 theorem ext_sendExt (x : XS) (e : String) : Ext x (x.sendExt e) := ⟨⟨[], by simp [XS.sendExt]⟩, ⟨[e], by simp [XS.sendExt]⟩, ⟨[], by simp [XS.sendExt]⟩⟩
 theorem ext_vars (x : XS) (v : List Int) : Ext x { x with vars := v } := ⟨⟨[], by simp⟩, ⟨[], by simp⟩, ⟨[], by simp⟩⟩
@@ -208,7 +208,7 @@ theorem large_microstep_ext (c : Chart) (e : EState) (t x ts : List Nat) (o : Li
     · exact ext_takeTrans _ _ _ _
   have h1 : ∀ (l : List Nat) (b : EState), ExtE b (l.foldl (fun e s =>
       { e with config := e.config.filter (· != s), configPF := pfErase c s e.configPF,
-               x := (execBlocks c e.config (st c s).onexit (e.x.emit s!"bx:{(st c s).id}")).emit s!"ax:{(st c s).id}" }) b) := by
+               x := (execBlocks c e.config (st c s).onexit (e.x.emit (.bx ((st c s).id)))).emit (.ax ((st c s).id)) }) b) := by
     intro l b
     apply extE_foldl
     intro e s
@@ -239,7 +239,7 @@ theorem fast_microstep_ext (c : Chart) (e : EState) (t x ts : List Nat) (o : Lis
     · exact ext_takeTrans _ _ _ _
   have h1 : ∀ (l : List Nat) (b : EState), ExtE b (l.foldl (fun e s =>
       { e with config := e.config.filter (· != s),
-               x := (execBlocks c e.config (st c s).onexit (e.x.emit s!"bx:{(st c s).id}")).emit s!"ax:{(st c s).id}" }) b) := by
+               x := (execBlocks c e.config (st c s).onexit (e.x.emit (.bx ((st c s).id)))).emit (.ax ((st c s).id)) }) b) := by
     intro l b
     apply extE_foldl
     intro e s
